@@ -452,14 +452,18 @@ def r02_1(prog, rep, rid='R02.1'):
         chunks = chunk_sites(f, g)
         pools = {c.pool for c in chunks}
         for c in chunks:
+            pools |= c.names
+        for c in chunks:
             check_chunk(prog, rep, rid, K, f, g, c, appends, res)
         for P, call, kind in picks:
             recv = unparse(call.func.value)
             if root_name(call.func.value) in pools:
-                # collected into a list the slots are cut from: how many
-                # elements a slot gets is decided where it is cut
-                rep.ok(rid, f, '%s: %s collects the list the %s of the slots '
-                       'are cut from' % (K.name, short(call, 40), kind),
+                # collected into the list the slots are cut from (or copied
+                # element by element from a chunk of it): how many elements
+                # a slot gets is decided where it is cut
+                rep.ok(rid, f, '%s: %s fills the list the %s of the slots '
+                       'are cut from / a copy of the chunk' % (
+                           K.name, short(call, 40), kind),
                        f.loc(call))
                 continue
             rroot = root_name(call.func.value)
@@ -1527,6 +1531,218 @@ def r02_6(prog, rep, rid='R02.6'):
 
 
 # ------------------------------------------------------------------------------
+# R02.10  who may place a task.  Every argument of this property about the
+# shape of a placement (R02.1 .. R02.9) is made about what
+# `schedule_task(task)` returns for the description of THAT task.  The value
+# stored as `task['slots']` therefore is the result of `self.schedule_task`
+# called with this very task, or the slots the task's own description
+# supplies (application-side placement) - never the placement of another
+# task.
+#
+_SLOTS = 'slots'
+_COPIES = ('copy.deepcopy', 'copy.copy', 'deepcopy', 'list', 'ru.as_list')
+
+
+def _key_read(e, key):
+    """base expression B of `B['key']` / `B.get('key'[, default])`"""
+    if isinstance(e, ast.Subscript) and isinstance(e.slice, ast.Constant) \
+            and e.slice.value == key:
+        return e.value
+    if isinstance(e, ast.Call) and isinstance(e.func, ast.Attribute) and \
+            e.func.attr == 'get' and e.args and \
+            isinstance(e.args[0], ast.Constant) and e.args[0].value == key:
+        return e.func.value
+    return None
+
+
+def slots_stores(f, smap):
+    """[(task expr, value expr or None, ast node of the store)]: writes of
+    the entry 'slots' of a dict"""
+    out = []
+    for n in walk(f.node):
+        if isinstance(n, ast.Assign):
+            for t in n.targets:
+                flat = list(I._flat(t))
+                for e in flat:
+                    if isinstance(e, ast.Subscript) and \
+                            isinstance(e.slice, ast.Constant) and \
+                            e.slice.value == _SLOTS:
+                        out.append((e.value, n.value if len(flat) == 1 and
+                                    e is t else None, n))
+        elif isinstance(n, (ast.AugAssign, ast.AnnAssign)):
+            e = n.target
+            if isinstance(e, ast.Subscript) and \
+                    isinstance(e.slice, ast.Constant) and \
+                    e.slice.value == _SLOTS:
+                out.append((e.value, n.value if isinstance(n, ast.AnnAssign)
+                            else None, n))
+        elif isinstance(n, ast.Call) and isinstance(n.func, ast.Attribute) \
+                and n.func.attr in ('update', 'setdefault'):
+            if n.func.attr == 'setdefault':
+                if len(n.args) == 2 and isinstance(n.args[0], ast.Constant) \
+                        and n.args[0].value == _SLOTS:
+                    out.append((n.func.value, n.args[1], n))
+                continue
+            for a in n.args:
+                if isinstance(a, ast.Dict):
+                    for k, v in zip(a.keys, a.values):
+                        if isinstance(k, ast.Constant) and k.value == _SLOTS:
+                            out.append((n.func.value, v, n))
+            for kw in n.keywords:
+                if kw.arg == _SLOTS:
+                    out.append((n.func.value, kw.value, n))
+    return [(t, v, n) for t, v, n in out if id(n) in smap]
+
+
+def _same_binding(g, expr, at1, at2):
+    """the plain names `expr` reads hold the same values at both cfg nodes
+    (same reaching definitions)"""
+    for x in walk(expr):
+        if isinstance(x, ast.Name) and x.id != 'self':
+            if origin(g, x.id, at1) != origin(g, x.id, at2):
+                return False
+    return True
+
+
+def slots_source(g, T, V, at, depth=0):
+    """where the value V stored as T['slots'] at cfg node `at` comes from:
+    ('grant', call) result of self.schedule_task(T); ('own', expr) the slots
+    of T's own description (or of T itself); ('other', expr) the slots entry
+    of something else; ('none', V) no placement (None / empty);
+    None = not recognised"""
+    tt = unparse(T)
+    if V is None or depth > 8:
+        return None
+    if (isinstance(V, ast.Constant) and V.value is None) or _empty_list(V) \
+            or (isinstance(V, (ast.Dict, ast.Tuple)) and
+                not getattr(V, 'elts', getattr(V, 'keys', None))):
+        return 'none', V
+
+    def grant(call, where):
+        if call_name(call) == 'self.schedule_task' and call.args:
+            if unparse(call.args[0]) == tt and \
+                    _same_binding(g, T, where, at.id):
+                return 'grant', call
+            return 'other', call
+        return None
+
+    if isinstance(V, ast.Call) and dotted(V.func) in _COPIES and \
+            len(V.args) == 1:
+        return slots_source(g, T, V.args[0], at, depth + 1)
+    if isinstance(V, ast.Subscript) and isinstance(V.slice, ast.Constant) \
+            and V.slice.value == 0 and not isinstance(V.slice.value, bool):
+        # first element of the (slots, partition) pair
+        pair, where = _hoisted(g, V.value, at.id)
+        if isinstance(pair, ast.Call):
+            return grant(pair, where)
+        return None
+    B = _key_read(V, _SLOTS)
+    if B is not None:
+        if unparse(B) == tt:
+            return 'own', V
+        D = _key_read(B, 'description')
+        if D is None and isinstance(B, ast.Name):
+            defs = reaching_defs(g, B.id, at.id)
+            ds = [_key_read(v, 'description') if v is not None else None
+                  for n, v in defs]
+            if defs and all(x is not None and unparse(x) == tt and
+                            _same_binding(g, T, n.id, at.id)
+                            for x, (n, v) in zip(ds, defs)):
+                return 'own', V
+            return 'other', V
+        if D is not None and unparse(D) == tt:
+            return 'own', V
+        return 'other', V
+    if isinstance(V, ast.Name):
+        defs = reaching_defs(g, V.id, at.id)
+        if not defs:
+            return None
+        got = []
+        for n, v in defs:
+            if v is not None:
+                got.append(slots_source(g, T, v, n, depth + 1))
+                continue
+            a = n.ast
+            r = None
+            if n.kind == 'stmt' and isinstance(a, ast.Assign) and \
+                    len(a.targets) == 1 and \
+                    isinstance(a.targets[0], (ast.Tuple, ast.List)) and \
+                    isinstance(a.value, ast.Call):
+                el = a.targets[0].elts
+                if el and isinstance(el[0], ast.Name) and el[0].id == V.id:
+                    r = grant(a.value, n.id)
+            got.append(r)
+        for r in got:
+            if r and r[0] == 'other':
+                return r
+        if any(r is None for r in got):
+            return None
+        real = [r for r in got if r[0] != 'none']
+        return real[0] if real else got[0]
+    # anything else: does it read the slots of something that is not T?
+    for x in walk(V):
+        B = _key_read(x, _SLOTS)
+        if B is not None:
+            r = slots_source(g, T, x, at, depth + 1)
+            if r and r[0] == 'other':
+                return r
+    return None
+
+
+def r02_10(prog, rep, rid='R02.10'):
+    rep.rule(rid, "what is stored as a task's slots is the result of "
+             'self.schedule_task for that task or the slots of its own '
+             'description - never the placement of another task', minimum=2)
+    base, classes = sched_classes(prog)
+    for K in [base] + classes:
+        for mname, f in sorted(K.methods.items()):
+            if not any(isinstance(x, ast.Constant) and x.value == _SLOTS
+                       for x in walk(f.node)):
+                continue
+            g = cfg_of(f)
+            smap = I.stmt_node_map(g)
+            for T, V, stmt in slots_stores(f, smap):
+                at = smap.get(id(stmt)) or smap.get(id(T))
+                if at is None:
+                    continue
+                rep.saw(f)
+                src = slots_source(g, T, V, at)
+                tt = unparse(T)
+                if src is None:
+                    raise AnalysisError(
+                        'UNRECOGNISED-IDIOM %s: the value stored as '
+                        "%s['slots'] (`%s`) is neither the result of "
+                        'self.schedule_task(%s) nor a slots entry the '
+                        'recogniser can follow' % (f.where, tt,
+                                                   short(stmt, 60), tt))
+                kind, what = src
+                if kind != 'other':
+                    rep.ok(rid, f, "%s['slots'] is %s" % (tt, {
+                        'grant': 'the result of self.schedule_task(%s)' % tt,
+                        'own': "the slots of the task's own description "
+                               '(%s)' % short(what, 40),
+                        'none': 'reset (%s)' % short(what, 20)}[kind]),
+                        f.loc(stmt))
+                    continue
+                rep.bad(rid, f, stmt,
+                        "%s stores `%s` as %s['slots']: the placement of a "
+                        'task must be what self.schedule_task returned for '
+                        'that very task (through _try_allocation) or the '
+                        'slots its own description supplies.  A placement '
+                        'taken over from somewhere else was computed for '
+                        'another description: ranks_per_node, lfs and mem '
+                        'per rank and the colocate tag of this task were '
+                        'never looked at (R02.4, R02.5, R02.7 hold for '
+                        'schedule_task only)' % (f.qual, short(what, 50), tt),
+                        f.loc(stmt),
+                        history='the pilot is full; running task A (4 ranks '
+                        'x 1 core) and waiting task B (4 ranks x 1 core, '
+                        'ranks_per_node=2, mem_per_rank=512) agree on ranks/'
+                        'cores/gpus; A completes and its slots are stored as '
+                        "B's: B runs with 4 ranks on one node and mem 0")
+
+
+# ------------------------------------------------------------------------------
 #
 def run(prog, rep, tier):
     rep.decided = ('per-node search: a slot is appended only past a "count '
@@ -1541,7 +1757,13 @@ def run(prog, rep, tier):
         'the length of exactly the list that extends the allocation; the '
         'per-node colocate filter and the recording of the tag history agree '
         'on which tag values (None / empty string / other falsy / truthy, '
-        'followed through the normalisation of the tag) count as a tag.')
+        'followed through the normalisation of the tag) count as a tag; '
+        'where the cores/gpus of a slot are cut from a collected list by a '
+        'slice, the slot is appended only past a test that the chunk (or '
+        'what is left of the list before the cut) has the width of the '
+        "slice; what is stored as a task's slots is the result of "
+        'schedule_task for that very task or the slots of its own '
+        'description, never the placement of another task.')
     rep.undecided = ('that the indices chosen are the right ones for every '
         'occupancy; numeric adequacy of slots_per_node; R02.3 (the four '
         'per-node asserts) is information only - removing one does not yield '
@@ -1556,6 +1778,14 @@ def run(prog, rep, tier):
         'None is not a tag; tests on the tag other than truth / None / '
         'constant comparisons may go both ways (may-analysis: R02.6 fires '
         'only when no path at all records / filters the value)',
+        'R02.1 chunk form: a list derived element by element (comprehension '
+        'or loop-and-append without filter, list(), sorted()) from a slice '
+        'has the length of the slice; a comparison of len(list) with the '
+        'width alone says nothing about chunks behind a moving cursor; a '
+        'bound computed from len(list) in any other way is not decided '
+        '(UNRECOGNISED-IDIOM)',
+        'R02.10: scope AgentSchedulingComponent, Continuous, ContinuousJsrun; '
+        'copy / deepcopy / list() of a placement is that placement',
     ]
     rep.attempt(r02_1, prog, rep)
     rep.attempt(r02_2, prog, rep)
@@ -1563,6 +1793,7 @@ def run(prog, rep, tier):
     rep.attempt(r02_5, prog, rep)
     rep.attempt(r02_6, prog, rep)
     rep.attempt(r02_9, prog, rep)
+    rep.attempt(r02_10, prog, rep)
     from .c01 import r02_8
     rep.attempt(r02_8, prog, rep)
     # R02.3 information
@@ -1575,6 +1806,69 @@ def run(prog, rep, tier):
 # ------------------------------------------------------------------------------
 _C = 'agent/scheduler/continuous.py'
 _J = 'agent/scheduler/continuous_jsrun.py'
+
+# --- building blocks of the chunk-form variants (R02.1) and of the hand-over
+#     variants (R02.10)
+_B = 'agent/scheduler/base.py'
+_HEAD_OLD = "        node_name = node['name']\n\n        while len(slots) < max_slots:\n"
+_POOL = ("        free_cores = [core_idx for core_idx,core in enumerate(node['cores'])\n"
+         "                               if  core == rpc.FREE]\n")
+_HEAD_NEW = ("        node_name = node['name']\n" + _POOL +
+             "\n        while len(slots) < max_slots:\n")
+_HEAD_FAST = ("        node_name = node['name']\n" + _POOL +
+              "\n        if len(free_cores) < cores_per_slot:\n"
+              "            max_slots = 0\n"
+              "\n        while len(slots) < max_slots:\n")
+_LOOP_OLD = ("            for core_idx,core in enumerate(node['cores'][loop_core_idx:],\n"
+             "                                                         loop_core_idx):\n"
+             "                if core == rpc.FREE:\n"
+             "                    slot['cores'].append(RO(index=core_idx,\n"
+             "                                            occupation=rpc.BUSY))\n\n"
+             "                if len(slot['cores']) == cores_per_slot:\n"
+             "                    break\n\n"
+             "            loop_core_idx = core_idx + 1\n\n"
+             "            if len(slot['cores']) < cores_per_slot:\n"
+             "                self._log.debug_9('not enough cores on %s', node_name)\n"
+             "                break\n")
+_CUT = ("            core_ids       = free_cores[loop_core_idx:\n"
+        "                                        loop_core_idx + cores_per_slot]\n"
+        "            loop_core_idx += cores_per_slot\n\n")
+_STORE = ("            slot['cores'] = [RO(index=core_idx, occupation=rpc.BUSY)\n"
+          "                                for core_idx in core_ids]\n")
+_STORE_LOOP = ("            picked = list()\n"
+               "            for core_idx in core_ids:\n"
+               "                picked.append(RO(index=core_idx, occupation=rpc.BUSY))\n"
+               "            slot['cores'] = picked\n")
+_BRK = ("                self._log.debug_9('not enough cores on %s', node_name)\n"
+        "                break\n\n")
+
+
+def _chunk(test, head=_HEAD_NEW, cut=_CUT, store=_STORE):
+    """the core search of Continuous._find_resources rewritten to cut the
+    slots from a list of free cores collected once, with `test` between the
+    cut and the store"""
+    return [(_C, _HEAD_OLD, head), (_C, _LOOP_OLD, cut + test + store)]
+
+
+_REL_OLD = "\n            to_release.append(task)\n            self._active_cnt -= 1\n"
+_FIND = ("\n            replace = None\n"
+         "            for prio in self._waitpool:\n"
+         "                for cand in self._waitpool[prio].values():\n"
+         "                    if tuple(cand['tuple_size']) == tuple(task['tuple_size']):\n"
+         "                        replace = cand\n"
+         "                        break\n"
+         "                if replace:\n"
+         "                    del self._waitpool[prio][replace['uid']]\n"
+         "                    break\n"
+         "            if replace:\n")
+_START = ("                self.advance(replace, rps.AGENT_EXECUTING_PENDING,\n"
+          "                             publish=True, push=True)\n"
+          "                continue\n" + _REL_OLD)
+_GRANT_OLD = "            task['slots']     = slots\n            task['partition'] = partition\n"
+_CALL_OLD = "            slots, partition = self.schedule_task(task)\n            if not slots:\n"
+_APP_OLD = "                    task['slots']     = td['slots']\n"
+_TRY_DEF = ("    # --------------------------------------------------------------------------\n"
+            "    #\n    def _try_allocation(self, task):\n")
 
 MUTATIONS = [
     dict(name='R02.1 short-cores test off by one', rules=('R02.1',), edits=[
@@ -1650,6 +1944,29 @@ MUTATIONS = [
         (_C, "        if colo_tag is not None and colo_tag != str(partition_id):", "        if colo_tag and colo_tag != str(partition_id):")]),
     dict(name='R02.6 only the filter is by truth: falsy tags are recorded but never looked up', rules=('R02.6',), edits=[
         (_C, "            if colo_tag is not None:\n                if colo_tag in self._colo_history:", "            if colo_tag:\n                if colo_tag in self._colo_history:")]),
+    dict(name='R02.1 chunk form: last chunk tested for emptiness only (seed C02-e)', rules=('R02.1',),
+         edits=_chunk("            if not core_ids:\n" + _BRK, head=_HEAD_FAST)),
+    dict(name='R02.1 chunk form: chunk compared with zero', rules=('R02.1',),
+         edits=_chunk("            if len(core_ids) == 0:\n" + _BRK)),
+    dict(name='R02.1 chunk form: no test on the chunk at all', rules=('R02.1',),
+         edits=_chunk("")),
+    dict(name='R02.1 chunk form: emptiness test, slot filled by a loop', rules=('R02.1',),
+         edits=_chunk("            if not core_ids:\n" + _BRK, store=_STORE_LOOP)),
+    dict(name='R02.1 chunk form: list consumed, only the first chunk is compared with the request', rules=('R02.1',),
+         edits=_chunk("            if not core_ids:\n" + _BRK, head=_HEAD_FAST,
+                      cut="            core_ids   = free_cores[:cores_per_slot]\n"
+                          "            free_cores = free_cores[cores_per_slot:]\n")),
+    dict(name='R02.10 slots of a completed task handed to a waiting task of the same tuple_size (seed C02-f)', rules=('R02.10',), edits=[
+        (_B, _REL_OLD, _FIND + "                replace['slots']     = task['slots']\n                replace['partition'] = task.get('partition')\n" + _START)]),
+    dict(name='R02.10 hand-over through a deep copy and dict.update', rules=('R02.10',), edits=[
+        (_B, _REL_OLD, _FIND + "                handed = copy.deepcopy(task['slots'])\n                replace.update({'slots': handed, 'partition': task.get('partition')})\n" + _START)]),
+    dict(name='R02.10 hand-over in an extracted helper', rules=('R02.10',), edits=[
+        (_B, _REL_OLD, _FIND + "                self._hand_over(task, replace)\n" + _START),
+        (_B, _TRY_DEF, "    # --------------------------------------------------------------------------\n    #\n    def _hand_over(self, src, dst):\n\n        dst['slots']     = src['slots']\n        dst['partition'] = src.get('partition')\n\n\n" + _TRY_DEF)]),
+    dict(name='R02.10 application-supplied slots taken from the first task of the bulk', rules=('R02.10',), edits=[
+        (_B, _APP_OLD, "                    task['slots']     = tasks[0]['description']['slots']\n")]),
+    dict(name='R02.10 failed search falls back to the placement found for another task', rules=('R02.10',), edits=[
+        (_B, _CALL_OLD, "            slots, partition = self.schedule_task(task)\n            if not slots and self._last:\n                slots, partition = self.schedule_task(self._last)\n            if not slots:\n")]),
 ]
 
 SILENT = [
@@ -1689,4 +2006,36 @@ SILENT = [
              "        tagged = colo_tag is not None\n        if tagged:\n            if colo_tag != str(partition_id):\n                self._colo_history[colo_tag] = [slot['node_index']\n                                                for slot in alc_slots]\n                self._tagged_nodes.update(self._colo_history[colo_tag])\n")]),
     dict(name='filter guard spelled `not (tag is None)`', edits=[
         (_J, "            if colo_tag is not None:\n                if colo_tag in self._colo_history:", "            if not (colo_tag is None):\n                if colo_tag in self._colo_history:")]),
+    dict(name='chunk form: slots cut from a collected list, short chunk leaves (len < request)',
+         edits=_chunk("            if len(core_ids) < cores_per_slot:\n" + _BRK)),
+    dict(name='chunk form: chunk length compared with != and the fast path of the seed kept',
+         edits=_chunk("            if len(core_ids) != cores_per_slot:\n" + _BRK, head=_HEAD_FAST)),
+    dict(name='chunk form: length of the stored slot entry tested after the store',
+         edits=_chunk("", cut="",
+                      store="            slot['cores'] = [RO(index=core_idx, occupation=rpc.BUSY)\n"
+                            "                                for core_idx in free_cores[loop_core_idx:loop_core_idx + cores_per_slot]]\n"
+                            "            loop_core_idx += cores_per_slot\n"
+                            "            if len(slot['cores']) < cores_per_slot:\n" + _BRK)),
+    dict(name='chunk form: slot filled by a loop over the chunk, bound hoisted into a local',
+         edits=_chunk("            need = cores_per_slot\n            if need > len(core_ids):\n" + _BRK, store=_STORE_LOOP)),
+    dict(name='chunk form: what is left of the list is compared with the request before the cut',
+         edits=_chunk("", cut="            if len(free_cores) - loop_core_idx < cores_per_slot:\n" + _BRK + _CUT)),
+    dict(name='chunk form: same, as cursor + request > length',
+         edits=_chunk("", cut="            if loop_core_idx + cores_per_slot > len(free_cores):\n" + _BRK + _CUT)),
+    dict(name='chunk form: list consumed from the front, length tested before every cut',
+         edits=_chunk("", cut="            if len(free_cores) < cores_per_slot:\n" + _BRK +
+                              "            core_ids   = free_cores[:cores_per_slot]\n"
+                              "            free_cores = free_cores[cores_per_slot:]\n")),
+    dict(name='grant: result pair kept in a local and unpacked by index', edits=[
+        (_B, _CALL_OLD, "            placed    = self.schedule_task(task)\n            slots     = placed[0]\n            partition = placed[1]\n            if not slots:\n")]),
+    dict(name='grant: renamed locals, stored with dict.update', edits=[
+        (_B, _CALL_OLD, "            placement, part = self.schedule_task(task)\n            slots, partition = placement, part\n            if not slots:\n"),
+        (_B, _GRANT_OLD, "            task.update({'slots': slots, 'partition': partition})\n")]),
+    dict(name='grant: the two stores extracted into a helper', edits=[
+        (_B, _GRANT_OLD, "            self._grant(task, slots, partition)\n"),
+        (_B, _TRY_DEF, "    # --------------------------------------------------------------------------\n    #\n    def _grant(self, task, slots, partition):\n\n        task['slots']     = slots\n        task['partition'] = partition\n\n\n" + _TRY_DEF)]),
+    dict(name='application-supplied slots read through the task, not through td', edits=[
+        (_B, _APP_OLD, "                    task['slots']     = task['description']['slots']\n")]),
+    dict(name='application-supplied slots hoisted into a local and copied', edits=[
+        (_B, "                if td.get('slots'):\n\n" + _APP_OLD, "                supplied = td.get('slots')\n                if supplied:\n\n                    task['slots']     = copy.deepcopy(supplied)\n")]),
 ]
